@@ -9,9 +9,9 @@ from mc.refeq import canon
 
 ID = 'C07'
 LEVEL = 'model_checking'
-RULE = ('(A) content: every combination of 0..3 keys from 11 key texts (quotes, unicode, separators, JSON metacharacters, newline, '
+RULE = ('(A) content: every combination of 0..3 keys from 12 key texts (quotes, unicode, separators, JSON metacharacters, newline, '
         'input/output-key shaped, keys sorting before "_metadata") with values rotating through the value universe, incl. one object shared '
-        'between two keys and between data and metadata, x 5 metadata kinds, on 5 cassette configurations (memory, file, S3 with key prefix '
+        'between two keys and between data and metadata, x 6 metadata kinds, on 5 cassette configurations (memory, file, S3 with key prefix '
         "'', 'p', 'p/q' on a fake bucket); (B) histories: every sequence up to the depth bound over save / re-save / get / get-metadata of 3 "
         'recordings in 2 categories + fetches of never-saved ids, each fetch compared with a reference store (dict copied at save time); '
         'states = distinct reference-store states. Non-trivial = at least one save and one fetch.')
@@ -19,9 +19,9 @@ ASSUMPTIONS = ['contents limited to the measured faithful domain of jsonpickle 0
                'S3 on an in-memory fake bucket (strong consistency)']
 
 KEYTEXTS = ['k', 'a"b', u'\xe9✓', 'x: y, z=', '{"j":[1]}', 'a/b', 'line\nbreak', 'input: ia args=[1], kwargs=[]', 'output: oa #1.output',
-            'A key', '0']
+            'A key', '0', 'json://1']
 VALCYCLE = ['vlst', 'vtup', 'vdct', 'vs', 'vb', 'v0', 'vset', 'vn', 'vq', 'vu', 'vf', 'vt', 'vobj']
-METAS = ['none', 'plain', 'tuple', 'class', 'shared']
+METAS = ['none', 'plain', 'tuple', 'class', 'shared', 'oddkeys']
 CONFIGS = [('mem', None), ('file', None), ('s3', ''), ('s3', 'p'), ('s3', 'p/q')]
 
 
@@ -47,6 +47,8 @@ def gen_cases(tier, seed):
                 yield {'k': 'hist', 'cfg': ci, 'h': list(h)}
                 if n >= 2 and sum(1 for i in h if letters[i][0] == 'save') >= 2:
                     yield {'k': 'hist', 'cfg': ci, 'h': list(h), 'open_all': True}          # all recordings are created before any is saved
+                if n >= 2 and any(letters[i][0] in ('save', 'resave') for i in h[:-1]):
+                    yield {'k': 'hist', 'cfg': ci, 'h': list(h), 'same_obj': True}          # re-saves reuse the recording OBJECT; every save also goes to a second cassette
                 if n >= 2 and any(letters[i][0] in ('save', 'resave') for i in h[:-1]) and ci in (1, 3):
                     yield {'k': 'hist', 'cfg': ci, 'h': list(h), 'long_cat': True}          # categories with very long names
 
@@ -89,7 +91,8 @@ def content(case):
             v = {'value': v, 'sh': shared}
         data[KEYTEXTS[ki]] = v
     meta = {'none': {}, 'plain': {'m': 1, 's': 'ab', 'l': [1, {'x': None}], 'f': 1.5, 'b': True},
-            'tuple': {'t': (1, 'x'), 'n': None}, 'class': {'cls': P.Plain, 'd': 1.0}, 'shared': {'sh': shared, 'm': 2}}[case['meta']]
+            'tuple': {'t': (1, 'x'), 'n': None}, 'class': {'cls': P.Plain, 'd': 1.0}, 'shared': {'sh': shared, 'm': 2},
+            'oddkeys': {'json://2': 1, 'a.b': {'json://"q"': [1], '1': 'one'}, '': 0, u'\xe9': {'_metadata': 1}}}[case['meta']]
     return data, meta
 
 
@@ -166,6 +169,8 @@ def _hist(case, box):
     viols = []
     states = []
     reader = box.fresh()
+    mirror = mkbox(case['cfg']) if case.get('same_obj') else None
+    kept = {}
     if case.get('open_all'):   # several recordings are open at the same time
         for i in range(3):
             recs[i] = c.create_new_recording(cats[i])
@@ -182,15 +187,26 @@ def _hist(case, box):
                 ids[i] = r.id
             elif i in recs and i not in ref:
                 r = recs.pop(i)   # created earlier (open_all), saved now
+            elif i in kept:
+                r = kept[i]       # the very object that was saved before: item assignment stays possible on it
             else:
                 from playback.recordings.memory.memory_recording import MemoryRecording
                 r = MemoryRecording(ids[i])
             data, meta = _hist_content(i, version[i])
-            for k, v in data.items():
-                r.set_data(k, v)
-            r.add_metadata(meta)
-            c.save_recording(r)
-            ref[i] = _hist_content(i, version[i])
+            if i in kept:
+                for k, v in data.items():
+                    r[k] = v
+                c.save_recording(r)
+                ref[i] = (_hist_content(i, version[i])[0], ref[i][1])   # metadata of a saved recording object can no longer be added to
+            else:
+                for k, v in data.items():
+                    r.set_data(k, v)
+                r.add_metadata(meta)
+                c.save_recording(r)
+                ref[i] = _hist_content(i, version[i])
+            if mirror is not None:
+                kept[i] = r
+                mirror.cassette.save_recording(r)
         elif op in ('get', 'meta'):
             i = arg
             if i not in ids:
@@ -240,6 +256,16 @@ def _hist(case, box):
                 viols.append(viol('never-saved:%s:%s' % (op, 'returned-' + type(got).__name__ if exc is None else type(exc).__name__),
                                   'fetching an id that was never saved must signal NoSuchRecording (%s)' % (CONFIGS[case['cfg']],), 'NoSuchRecording', repr(exc or got)))
         states.append(repr(sorted((i, version.get(i)) for i in ids if i in ref)))
+    if mirror is not None:
+        try:
+            for i in sorted(ref):
+                try:
+                    got = mirror.fresh().get_recording(ids[i])
+                    compare(viols, 'hist-second-cassette', case['cfg'], got, ids[i], ref[i][0], ref[i][1], mirror.cassette.get_recording_metadata(ids[i]))
+                except Exception as e:
+                    viols.append(viol('hist-second-cassette:fetch-raised:%s' % type(e).__name__, 'a recording object saved to a second cassette cannot be fetched from it', 'Recording', repr(e)))
+        finally:
+            mirror.close()
     uniq = {}
     for v in viols:
         uniq.setdefault(v['sig'], v)
